@@ -1388,7 +1388,9 @@ func (gen *Generator) generateSyntaxQuoteHash(arg Sexp) error {
 	for i := 0; i < n; i++ {
 		// must reverse order here to preserve order on rebuild
 		key := hash.KeyOrder[(n-i)-1]
-		val, err := hash.HashGet(nil, key)
+		// (with the interpreter: a dot-symbol key is looked up as a
+		// path, which interns names; on a nil interpreter that panics)
+		val, err := hash.HashGet(gen.env, key)
 		if err != nil {
 			return err
 		}
